@@ -112,4 +112,19 @@ example : (SF.run [.enter 1, .enter 2, .enter 3, .finish 7]).results = [(1, 7), 
 example : (headCall ⟨3600, 10, 30⟩ 1000 (some ⟨20, 900⟩) .fail (.ok ⟨25, 990⟩)).result = some ⟨25, 990⟩ := by decide
 example : (headCall ⟨3600, 10, 30⟩ 10000 (some ⟨20, 900⟩) (.ok ⟨25, 990⟩) .fail).result = none := by decide
 
+/-- **C19 monotone, concurrent form**: whatever the trusted peers answer to a request that was in flight while the
+    subjective head advanced from `s0` to `s1`, the caller is handed at least `s1` — i.e. at least what any other
+    caller may already have been given in the meantime (fixed by the F22 repair; before it the snapshot `s0` was
+    returned on failure). -/
+theorem c19_monotone_inflight (s0 s1 : H) (ans : PeerAns) (h01 : s0.height ≤ s1.height) :
+    s1.height ≤ (headCallInflight s0 s1 ans).height := by
+  unfold headCallInflight
+  cases ans with
+  | fail => simp only []; split <;> omega
+  | ok h => simp only []; split <;> split <;> omega
+  | soft h b => simp only []; split <;> split <;> omega
+
+example : (headCallInflight ⟨20, 0⟩ ⟨60, 5⟩ .fail).height = 60 := by decide
+example : (headCallInflight ⟨20, 0⟩ ⟨60, 5⟩ (.ok ⟨40, 3⟩)).height = 60 := by decide
+
 end GoHeader.C19
